@@ -193,7 +193,7 @@ fn assign_lens(rng: &mut Rng, nsyms: usize, used: &[usize], extra_pool: &[usize]
     lens
 }
 
-fn write_dynamic_header(rng: &mut Rng, w: &mut BitWriter, ll: &[u8], dl: &[u8], feats: &mut Vec<String>) {
+pub fn write_dynamic_header(rng: &mut Rng, w: &mut BitWriter, ll: &[u8], dl: &[u8], feats: &mut Vec<String>) {
     let last_l = (0..286).rev().find(|&i| ll[i] != 0).unwrap_or(0);
     let mut hlit = (last_l + 1).max(257);
     if rng.chance(1, 3) { hlit = rng.range(hlit, 286); }
@@ -371,6 +371,42 @@ pub fn huff_then_stored(rng: &mut Rng, zlib: bool) -> (Vec<u8>, Vec<u8>, Vec<usi
     (bytes, plain, bounds)
 }
 
+/// A stream whose plaintext reaches the end of the 32 KiB window inside the first bytes of a stored block
+/// that directly follows a Huffman block: stored filler, a tiny-alphabet dynamic block, then the stored
+/// block; `head` plaintext bytes precede the last stored block. Returns the stream, and the input
+/// position one byte past the stored-block byte that is the first not to fit the window.
+pub fn window_edge_stream(rng: &mut Rng, zlib: bool, head: usize) -> (Vec<u8>, usize) {
+    let mut w = BitWriter::new();
+    let mut plain: Vec<u8> = vec![];
+    if zlib { w.put(0x78, 8); w.put(0x9c, 8); }
+    let k = rng.range(1, 90);
+    let fill = head - k;
+    w.put(0, 1); w.put(0, 2); w.align();
+    w.put(fill as u32, 16); w.put(!(fill as u32) & 0xFFFF, 16);
+    for _ in 0..fill { let x = rng.byte(); plain.push(x); w.put(x as u32, 8); }
+    let (a, b) = (rng.byte(), rng.byte().wrapping_add(1));
+    let (a, b) = if a == b { (a, a.wrapping_add(7)) } else { (a, b) };
+    let toks: Vec<Tok> = (0..k).map(|_| Tok::Lit(if rng.chance(2, 3) { a } else { b })).collect();
+    for t in &toks { if let Tok::Lit(x) = t { plain.push(*x); } }
+    let mut ll = vec![0u8; 288];
+    let d = if rng.chance(1, 2) { [1u8, 2, 2] } else { [2u8, 1, 2] };
+    ll[a as usize] = d[0]; ll[b as usize] = d[1]; ll[256] = d[2];
+    let dl = vec![0u8; 32];
+    w.put(0, 1); w.put(2, 2);
+    let mut feats = vec![];
+    write_dynamic_header(rng, &mut w, &ll, &dl, &mut feats);
+    let lc = canonical_codes(&ll); let dc = canonical_codes(&dl);
+    write_tokens(&mut w, &toks, &ll, &lc, &dl, &dc);
+    let n = rng.range(8, 300);
+    w.put(1, 1); w.put(0, 2); w.align();
+    w.put(n as u32, 16); w.put(!(n as u32) & 0xFFFF, 16);
+    let data_start = w.bytes.len();
+    for _ in 0..n { let x = rng.byte(); plain.push(x); w.put(x as u32, 8); }
+    let mut bytes = w.finish();
+    if zlib { bytes.extend_from_slice(&adler32(&plain).to_be_bytes()); }
+    (bytes, data_start + (32768 - head) + 1)
+}
+
 /// G-mut: structural mutations of a (usually valid) stream.
 pub fn mutate(rng: &mut Rng, s: &[u8]) -> (Vec<u8>, &'static str) {
     let mut v = s.to_vec();
@@ -390,7 +426,7 @@ pub fn mutate(rng: &mut Rng, s: &[u8]) -> (Vec<u8>, &'static str) {
 /// Targeted spec violations: one constructor per failure class named in C04.
 pub fn targeted_invalid(rng: &mut Rng, which: usize) -> (Vec<u8>, &'static str) {
     let mut w = BitWriter::new();
-    match which % 15 {
+    match which % 17 {
         0 => { w.put(1, 1); w.put(3, 2); w.put(rng.next() as u32, 13); (w.finish(), "blocktype3") }
         1 => { w.put(1, 1); w.put(0, 2); w.align(); w.put(5, 16); w.put(!5u32 & 0xFFFF ^ 1, 16); for _ in 0..5 { w.put(65, 8); } (w.finish(), "stored_len_mismatch") }
         2 => { // HLIT = 287..288 (>286)
@@ -442,6 +478,17 @@ pub fn targeted_invalid(rng: &mut Rng, which: usize) -> (Vec<u8>, &'static str) 
             w.put(1, 1); w.put(2, 2); w.put(rng.below(30) as u32, 5); w.put(rng.below(30) as u32, 5); w.put(rng.below(16) as u32, 4);
             for _ in 0..19 { w.put(0, 3); }
             for _ in 0..12 { w.put(rng.next() as u32, 32); } (w.finish(), "clen_empty") }
+        15 | 16 => { // a block that is well-formed EXCEPT that it announces 287 literal/length codes (15) or 31
+            // distance codes (16): 'A' and end-of-block on 1-bit codes, no distance code; 'A' 'A' 'A' end
+            w.put(1, 1); w.put(2, 2);
+            let (nlit, ndist) = if which % 17 == 15 { (287usize, 1usize) } else { (257usize, 31usize) };
+            w.put((nlit - 257) as u32, 5); w.put((ndist - 1) as u32, 5); w.put(15, 4);
+            let order = [16, 17, 18, 0, 8, 7, 9, 6, 10, 5, 11, 4, 12, 3, 13, 2, 14, 1, 15];
+            for &o in order.iter() { w.put(if o == 0 || o == 1 { 1 } else { 0 }, 3); }
+            for i in 0..nlit { w.put(if i == 65 || i == 256 { 1 } else { 0 }, 1); }
+            for _ in 0..ndist { w.put(0, 1); }
+            w.put(0, 1); w.put(0, 1); w.put(0, 1); w.put(1, 1);
+            (w.finish(), if which % 17 == 15 { "hlit_287_full" } else { "hdist_31_full" }) }
         _ => { // incomplete literal code: two symbols of length 2
             w.put(1, 1); w.put(2, 2); w.put(0, 5); w.put(0, 5); w.put(15, 4);
             let order = [16, 17, 18, 0, 8, 7, 9, 6, 10, 5, 11, 4, 12, 3, 13, 2, 14, 1, 15];
